@@ -197,16 +197,20 @@ def openapi_bulk(app_name, model_paths, routes_paths):
                     k_v[0], update_d(*map(itemgetter(1), k_v[1]))
                 ),
                 groupby(
-                    map(
-                        lambda route: (
-                            get_value(route.decorator_list[0].args[0]),
-                            {
-                                route.decorator_list[
-                                    0
-                                ].func.attr: cdd.routes.parse.bottle.bottle(route)
-                            },
+                    # `groupby` only merges neighbours: bring the handlers of one path together first (stable)
+                    sorted(
+                        map(
+                            lambda route: (
+                                get_value(route.decorator_list[0].args[0]),
+                                {
+                                    route.decorator_list[
+                                        0
+                                    ].func.attr: cdd.routes.parse.bottle.bottle(route)
+                                },
+                            ),
+                            chain.from_iterable(map(parse_route, routes_paths)),
                         ),
-                        chain.from_iterable(map(parse_route, routes_paths)),
+                        key=itemgetter(0),
                     ),
                     key=itemgetter(0),
                 ),
